@@ -35,15 +35,16 @@ import (
 
 // Message kinds (hops).
 const (
-	KReq      = 1 // client -> issuer (types 1, 2, 5)
-	KResp     = 2 // issuer -> client
-	KTok      = 3 // client -> origin (redemption)
-	KAttReq   = 4 // client -> attester (type 3; side = blind, client key, anon origin id)
-	KIssReq   = 5 // attester -> issuer (type 3)
-	KIssResp  = 6 // issuer -> attester (side = blinded request key)
-	KAttResp  = 7 // attester -> client
-	KBatchReq = 8 // client -> generic batch issuer
-	KBatchRsp = 9 // generic batch issuer -> client
+	KReq      = 1  // client -> issuer (types 1, 2, 5)
+	KResp     = 2  // issuer -> client
+	KTok      = 3  // client -> origin (redemption)
+	KAttReq   = 4  // client -> attester (type 3; side = blind, client key, anon origin id)
+	KIssReq   = 5  // attester -> issuer (type 3)
+	KIssResp  = 6  // issuer -> attester (side = blinded request key)
+	KAttResp  = 7  // attester -> client
+	KBatchReq = 8  // client -> generic batch issuer
+	KBatchRsp = 9  // generic batch issuer -> client
+	KTokParts = 10 // client -> origin: a token presented as separate fields (side = nonce, context, key id, authenticator; tag = token type)
 )
 
 var KindName = map[int]string{KReq: "req", KResp: "resp", KTok: "token", KAttReq: "att-req", KIssReq: "iss-req", KIssResp: "iss-resp", KAttResp: "att-resp", KBatchReq: "batch-req", KBatchRsp: "batch-resp"}
@@ -191,6 +192,8 @@ type World struct {
 	reuse1       *type1.BasicPrivateTokenRequest
 	reuse2       *type2.BasicPublicTokenRequest
 	reuse5       *type5.BatchedPrivateTokenRequest
+	// Custom handlers for scenario-specific message kinds.
+	Custom map[int]func(m *simnet.Msg, s *Session, o *Outcome, op string)
 }
 
 type Sending struct {
@@ -511,9 +514,43 @@ func (w *World) handle(m *simnet.Msg) {
 		w.handleIss3(m, s, o, opLabel)
 	case KIssResp:
 		w.handleAttResp(m, s, o, opLabel)
+	case KTokParts:
+		w.handleRedeemParts(m, s, o, opLabel)
 	default:
+		if h, ok := w.Custom[m.Kind]; ok {
+			h(m, s, o, opLabel)
+			return
+		}
 		w.Res.Violate("HARNESS/unknown-kind", fmt.Sprintf("kind %d", m.Kind), -1)
 	}
+}
+
+// handleRedeemParts: an origin that already split the token into fields hands a tokens.Token
+// to the issuer's Verify (types 1 and 5; the issuer index is in Meta, the verifying issuer's
+// type in Payload[0]).
+func (w *World) handleRedeemParts(m *simnet.Msg, s *Session, o *Outcome, op string) {
+	o.Party, o.Op = "origin", "redeem-parts"
+	if len(m.Side) != 4 || len(m.Payload) != 2 {
+		w.Res.Violate("HARNESS/redeem-parts", "malformed parts message", -1)
+		return
+	}
+	vt, idx := int(m.Payload[0]), int(m.Payload[1])
+	w.Ent.Begin("origin", op)
+	w.guard(o, func() {
+		t := tokens.Token{TokenType: uint16(m.Tag), Nonce: w.Arena.Put("nonce", m.Side[0]), Context: w.Arena.Put("context", m.Side[1]),
+			KeyID: w.Arena.Put("keyid", m.Side[2]), Authenticator: w.Arena.Put("auth", m.Side[3])}
+		switch vt {
+		case 1:
+			o.Err = w.I1[idx].Iss.Verify(t)
+		case 5:
+			o.Err = w.I5[idx].Iss.Verify(t)
+		default:
+			o.Err = fmt.Errorf("no verifier")
+		}
+	})
+	o.OK = o.Err == nil
+	w.Log.Add("redeem-parts s=%d m=%d ok=%v", s.ID, m.ID, o.OK)
+	w.emit(o)
 }
 
 func issuerIndex(to string, def int) int {
